@@ -55,10 +55,18 @@ Proof.
 Qed.
 
 (* split "nth_error (steps ..) j = Some s" into the thirteen concrete steps *)
-Ltac step_cases j Hn :=
-  unfold steps in Hn;
-  do 13 (destruct j as [|j]; [cbn [nth_error] in Hn; injection Hn as <- | ]);
-  [ .. | destruct j; discriminate Hn ].
+Lemma steps_cases nb p w0 j s : nth_error (steps nb p w0) j = Some s ->
+  (j = 0 /\ s = step_create_repository p w0) \/ (j = 1 /\ s = step_fetch_referenced p w0)
+  \/ (j = 2 /\ s = step_open_reference p w0 nb) \/ (j = 3 /\ s = step_destroy_repository_fetch p w0 nb)
+  \/ (j = 4 /\ s = step_destroy_reference p) \/ (j = 5 /\ s = step_destroy_branch p w0 nb)
+  \/ (j = 6 /\ s = step_create_branch p w0) \/ (j = 7 /\ s = step_create_reference p w0 nb)
+  \/ (j = 8 /\ s = step_trees p) \/ (j = 9 /\ s = step_unbind p) \/ (j = 10 /\ s = step_bind p w0 nb)
+  \/ (j = 11 /\ s = step_destroy_repository p) \/ (j = 12 /\ s = step_repository_trees p).
+Proof.
+  intros H. unfold steps in H.
+  repeat (destruct j as [|j]; [cbn [nth_error] in H; injection H as <-; tauto | ]).
+  destruct j; discriminate H.
+Qed.
 
 (* ---- get_other / set_other ----------------------------------------------------------------- *)
 
